@@ -33,6 +33,12 @@ def generate(rng, tier):
     cases = []
     for nm in CLASS_TABLE:
         cases.append(Case("di.classify", [enc(nm.encode("latin-1"))], meta={"nt": True}))
+    # only the LAST component decides: every marker the classifier knows placed in a directory component, in front of
+    # every kind of last component (and with a trailing '/', which file_name() ignores)
+    for d in ("foo-1.0.tar.d", "x.tar.gz", "patch-local-x", "a.orig", "b.rej", "c~", "patch-aa", "emul-x-patch-y", "x.tar.", ".tar.", "dir.orig/sub"):
+        for last in ("patch-aa", "emul-x-patch-aa", "foo.tgz", "patch-aa.orig", "patch-local-x", "patch-2.7.6.tar.xz", "patch-bb~", "patch-cc.rej"):
+            for nm in (d + "/" + last, d + "/" + last + "/", "./" + d + "/" + last, d + "//" + last):
+                cases.append(Case("di.classify", [enc(nm.encode("latin-1"))], meta={"nt": True}))
     # small scope, exhaustively: every sequence of <= 4 (thorough 5) tokens of the line grammar
     import itertools
     toks = [b"SHA1", b"Size", b" ", b"(f)", b"(", b")", b"=", b"1", b"\n", b"bytes", b"patch-a", b"\t"]
